@@ -3721,7 +3721,11 @@ func (a *Association) resetOutgoingStreamSequenceNumbers(reconfigRequestSequence
 		return
 	}
 	for _, id := range resetRequest.streamIdentifiers {
-		if s, ok := a.streams[id]; ok {
+		// Only the stream that asked for the reset starts again at zero. If the
+		// identifier has been opened again since (the peer reset its side, the
+		// old stream is gone), the stream registered now is a new incarnation
+		// that is already counting from zero: leave its numbers alone.
+		if s, ok := a.streams[id]; ok && s.State() != StreamStateOpen {
 			s.resetOutgoingStreamSequenceNumbers()
 		}
 	}
